@@ -1,4 +1,190 @@
+// Socket metadata (neighbor-wait back-off) harnesses: C13, interface-level part.
+// Spliced into src/iface/socket_meta.rs: `Meta`, `NeighborState` (private) reachable.
+//
+// `Meta` decides two things for `Interface`: whether `socket_egress` may dispatch the socket
+// (`egress_permitted`) and what the socket contributes to `Interface::poll_at` (`poll_at`).
+// C13 needs the two to agree: the schedule is sufficient (whenever the socket is due and egress is
+// permitted at an instant t, the advertised deadline is not later than t) and non-spinning
+// (whenever egress is refused, the advertised deadline is strictly later than `now`).
 #[allow(dead_code, unused_imports, unused_variables, unused_mut)]
 mod v_socket_meta {
     use super::*;
+
+    // instants are symbolic microsecond counts (the resolution of `Instant`)
+    const T_MAX: i64 = 1i64 << 50;
+    const SILENT: i64 = 1_000_000;
+
+    fn any_addr() -> IpAddress {
+        #[cfg(feature = "proto-ipv4")]
+        {
+            let b: [u8; 4] = kani::any();
+            IpAddress::v4(b[0], b[1], b[2], b[3])
+        }
+        #[cfg(not(feature = "proto-ipv4"))]
+        {
+            let w: [u16; 8] = kani::any();
+            IpAddress::v6(w[0], w[1], w[2], w[3], w[4], w[5], w[6], w[7])
+        }
+    }
+
+    fn any_instant(lo: i64, hi: i64) -> Instant {
+        let t: i64 = kani::any();
+        kani::assume(t >= lo && t <= hi);
+        Instant::from_micros(t)
+    }
+
+    /// symbolic description of a `Meta` (it is not `Clone`; the harness builds it more than once)
+    #[derive(Clone, Copy)]
+    struct Desc {
+        waiting: bool,
+        neighbor: IpAddress,
+        silent_until: Instant,
+    }
+
+    fn any_desc() -> Desc {
+        Desc { waiting: kani::any(), neighbor: any_addr(), silent_until: any_instant(0, T_MAX + SILENT) }
+    }
+
+    fn build(d: &Desc) -> Meta {
+        Meta {
+            handle: SocketHandle::default(),
+            neighbor_state: if d.waiting {
+                NeighborState::Waiting { neighbor: d.neighbor, silent_until: d.silent_until }
+            } else {
+                NeighborState::Active
+            },
+        }
+    }
+
+    fn any_poll_at() -> PollAt {
+        let k: u8 = kani::any();
+        match k {
+            0 => PollAt::Ingress,
+            1 => PollAt::Now,
+            _ => PollAt::Time(any_instant(0, T_MAX + 100 * SILENT)),
+        }
+    }
+
+    /// the socket itself has work at instant `t`
+    fn due(p: PollAt, t: Instant) -> bool {
+        match p {
+            PollAt::Now => true,
+            PollAt::Time(s) => s <= t,
+            PollAt::Ingress => false,
+        }
+    }
+
+    /// `t` is strictly earlier than the advertised deadline
+    fn before(t: Instant, d: PollAt) -> bool {
+        match d {
+            PollAt::Now => false,
+            PollAt::Time(s) => t < s,
+            PollAt::Ingress => true,
+        }
+    }
+
+    // @harness props=C13 cfg=KI4,KI6 tier=q to=300 mem=4 unwind=18 opts=nomem covers=5 funcs=Meta::poll_at;Meta::egress_permitted;Meta::neighbor_missing bounds=every_NeighborState_(Active/Waiting_with_any_address_and_any_silent_until);_every_socket_PollAt;_now_and_probe_instant_any_value_below_2^50_us;_neighbor-cache_answer_symbolic_per_address
+    #[kani::proof]
+    pub(crate) fn meta_poll_vs_egress() {
+        let d = any_desc();
+        let now = any_instant(0, T_MAX);
+        let spa = any_poll_at();
+        // answer of the neighbor cache: `hn` for the awaited neighbor, `other` for any other address
+        let hn: bool = kani::any();
+        let other: bool = kani::any();
+        let nb = d.neighbor;
+        let has = move |a: IpAddress| if a == nb { hn } else { other };
+
+        let m0 = build(&d);
+        let dl = m0.poll_at(spa, has, now);
+        let mut m1 = build(&d);
+        let perm = m1.egress_permitted(now, has);
+        crate::vdump!("state waiting={} neighbor={} silent_until={} now={} socket_poll_at={:?} has_neighbor={} -> poll_at={:?} egress_permitted={}",
+            d.waiting, d.neighbor, d.silent_until, now, spa, hn, dl, perm);
+
+        // ---- non-spinning: refused egress comes with a deadline strictly in the future
+        if !perm {
+            assert!(before(now, dl), "prop:c13_meta_refused_egress_has_future_deadline");
+            assert!(dl == PollAt::Time(d.silent_until), "prop:c13_meta_refused_egress_waits_for_silence_end");
+            assert!(d.waiting && !hn, "prop:c13_meta_refuses_only_while_waiting_for_unknown_neighbor");
+        }
+        // ---- sufficient schedule: a due socket advertised as due is really let through, and permitted egress passes the socket's own deadline on
+        if due(spa, now) && !before(now, dl) {
+            assert!(perm, "prop:c13_meta_due_deadline_implies_egress_permitted");
+        }
+        if perm {
+            assert!(dl == spa, "prop:c13_meta_permitted_egress_keeps_socket_deadline");
+        }
+        // ---- not earlier: at any probe instant before the advertised deadline the socket would not be dispatched
+        let t = any_instant(0, T_MAX);
+        kani::assume(t >= now);
+        let mut m2 = build(&d);
+        let perm_t = m2.egress_permitted(t, has);
+        if before(t, dl) {
+            assert!(!(perm_t && due(spa, t)), "prop:c13_meta_nothing_dispatched_before_poll_at");
+        }
+        // the deadline itself is honoured: at the advertised instant the silence is over
+        if let PollAt::Time(s) = dl {
+            if !perm {
+                let mut m3 = build(&d);
+                assert!(m3.egress_permitted(s, has), "prop:c13_meta_egress_permitted_at_deadline");
+            }
+        }
+        // ---- a discovered neighbor ends the wait
+        if d.waiting && hn {
+            assert!(perm && matches!(m1.neighbor_state, NeighborState::Active), "prop:c13_meta_active_once_neighbor_found");
+        }
+        if !d.waiting || !hn {
+            // nothing else changes the state
+            match m1.neighbor_state {
+                NeighborState::Active => assert!(!d.waiting, "prop:c13_meta_state_kept"),
+                NeighborState::Waiting { neighbor, silent_until } => {
+                    assert!(d.waiting && neighbor == d.neighbor && silent_until == d.silent_until, "prop:c13_meta_state_kept")
+                }
+            }
+        }
+
+        // ---- neighbor_missing: one second of silence, counted from the failed dispatch
+        let miss = any_addr();
+        let mut m4 = build(&d);
+        m4.neighbor_missing(now, miss);
+        let one_s = Instant::from_micros(now.total_micros() + SILENT);
+        match m4.neighbor_state {
+            NeighborState::Waiting { neighbor, silent_until } => {
+                assert!(neighbor == miss, "prop:c13_meta_waits_for_the_missing_neighbor");
+                assert!(silent_until == one_s, "prop:c13_meta_silence_is_one_second");
+            }
+            NeighborState::Active => assert!(false, "prop:c13_meta_missing_neighbor_silences"),
+        }
+        assert!(Meta::DISCOVERY_SILENT_TIME == Duration::from_millis(1000), "prop:c13_meta_silence_is_one_second");
+        let none = |_a: IpAddress| false;
+        let dl4 = m4.poll_at(spa, none, t);
+        if t < one_s {
+            assert!(dl4 == PollAt::Time(one_s), "prop:c13_meta_silenced_socket_polls_at_silence_end");
+            assert!(!m4.egress_permitted(t, none), "prop:c13_meta_silenced_socket_not_dispatched");
+        } else {
+            assert!(dl4 == spa, "prop:c13_meta_silence_over_keeps_socket_deadline");
+            assert!(m4.egress_permitted(t, none), "prop:c13_meta_silence_over_permits_egress");
+        }
+        let found = move |a: IpAddress| a == miss;
+        assert!(m4.poll_at(spa, found, t) == spa, "prop:c13_meta_found_neighbor_keeps_socket_deadline");
+        assert!(m4.egress_permitted(t, found) && matches!(m4.neighbor_state, NeighborState::Active), "prop:c13_meta_active_once_neighbor_found");
+
+        kani::cover!(!perm && spa == PollAt::Now, "due socket silenced");
+        kani::cover!(d.waiting && perm && !hn && due(spa, now), "silence expired, rediscovery allowed");
+        kani::cover!(d.waiting && hn && other != hn, "neighbor found (cache asked about the awaited address)");
+        kani::cover!(before(t, dl) && t > now && matches!(spa, PollAt::Time(_)) && perm, "probe before a timed socket deadline");
+        kani::cover!(t >= one_s && dl4 == PollAt::Now, "silence after neighbor_missing is over");
+    }
+
+    // @harness props=C13 kind=mustfail cfg=KI4,KI6 tier=q to=300 mem=4 unwind=18 opts=nomem
+    #[kani::proof]
+    pub(crate) fn meta_must_fail() {
+        let d = any_desc();
+        let now = any_instant(0, T_MAX);
+        let hn: bool = kani::any();
+        let has = move |_a: IpAddress| hn;
+        let mut m = build(&d);
+        assert!(m.egress_permitted(now, has), "prop:deliberately_false_egress_always_permitted");
+    }
 }
